@@ -462,6 +462,17 @@ func IdentBody(f *Fetch, n int, kind string) []byte {
 	return append([]byte(line), PRNGBytes(seed, n, kind)...)
 }
 
+// IdentBodyTotal a self-identifying body of exactly total bytes (total >= 1200), whatever the request looks like
+func IdentBodyTotal(f *Fetch, total int, kind string) []byte {
+	seed := f.ID*7919 + 13
+	n := total - len(IdentLine(f, seed, 1000, kind))
+	if n < 1000 || n > 9999 {
+		return IdentBody(f, total, kind)
+	}
+	line := IdentLine(f, seed, n, kind)
+	return append([]byte(line), PRNGBytes(seed, n, kind)...)
+}
+
 // Ident what a self-identifying body says about itself
 type Ident struct {
 	FetchID int64
